@@ -1,0 +1,165 @@
+// +build linux,verif
+
+// Verification hooks (build tag "verif" only; nothing here is compiled into
+// honeytrap otherwise). They let a harness run the raw listener without
+// AF_PACKET privileges: the Canary is built on an unprivileged epoll instance
+// plus an AF_UNIX datagram socketpair, with caller-supplied interface, ARP and
+// route tables, so that frames flow through the real Start() receive loop; a
+// frame can also be injected synchronously into the real
+// handleTCP/handleUDP/handleICMP/handleARP, and the transmit ring drained.
+package canary
+
+import (
+	"context"
+	"fmt"
+	"math/rand"
+	"net"
+	"sync"
+	"syscall"
+	"time"
+
+	"github.com/glycerine/rbuf"
+	"github.com/honeytrap/honeytrap/listener/canary/ethernet"
+	"github.com/honeytrap/honeytrap/listener/canary/ipv4"
+	"github.com/honeytrap/honeytrap/pushers"
+)
+
+// VerifARPEntry / VerifRoute mirror the unexported table element types.
+type VerifARPEntry struct {
+	IP              net.IP
+	HardwareAddress net.HardwareAddr
+	Interface       string
+}
+
+type VerifRoute struct {
+	Interface   string
+	Gateway     net.IP
+	Destination net.IPNet
+}
+
+// VerifNew builds a Canary for interface intf (its addresses decide isMe) on
+// an epoll instance and one end of an AF_UNIX datagram socketpair. The other
+// end is returned: frames written to it are received by the Start() loop.
+func VerifNew(events pushers.Channel, intf net.Interface, arp []VerifARPEntry, routes []VerifRoute) (*Canary, int, error) {
+	epfd, err := syscall.EpollCreate1(0)
+	if err != nil {
+		return nil, -1, fmt.Errorf("epoll_create1: %s", err.Error())
+	}
+
+	fds, err := syscall.Socketpair(syscall.AF_UNIX, syscall.SOCK_DGRAM, 0)
+	if err != nil {
+		return nil, -1, fmt.Errorf("socketpair: %s", err.Error())
+	}
+
+	ac := ARPCache{}
+	for _, a := range arp {
+		ac = append(ac, ARPEntry{IP: a.IP, HardwareAddress: a.HardwareAddress, Interface: a.Interface})
+	}
+
+	rt := RouteTable{}
+	for _, r := range routes {
+		rt = append(rt, Route{Interface: r.Interface, Gateway: r.Gateway, Destination: r.Destination})
+	}
+
+	c := &Canary{
+		ac:                ac,
+		rt:                rt,
+		epfd:              epfd,
+		descriptors:       map[string]int32{intf.Name: int32(fds[0])},
+		networkInterfaces: []net.Interface{intf},
+		r:                 rand.New(rand.NewSource(time.Now().UTC().UnixNano())),
+		knockChan:         make(chan interface{}, 100),
+		events:            events,
+		m:                 sync.Mutex{},
+		ch:                make(chan net.Conn),
+		buffer:            rbuf.NewFixedSizeRingBuf(65535),
+	}
+
+	if err = syscall.EpollCtl(epfd, syscall.EPOLL_CTL_ADD, fds[0], &syscall.EpollEvent{
+		Events: syscall.EPOLLIN | syscall.EPOLLERR,
+		Fd:     int32(fds[0]),
+	}); err != nil {
+		return nil, -1, fmt.Errorf("epollctl: %s", err.Error())
+	}
+
+	return c, fds[1], nil
+}
+
+// VerifInject dispatches one received frame exactly like the body of the
+// Start() receive loop does (ethernet.Parse -> ipv4.Parse -> handle*),
+// synchronously in the caller's goroutine.
+func (c *Canary) VerifInject(frame []byte) {
+	buffer := make([]byte, len(frame))
+	n := copy(buffer, frame)
+
+	if n == 0 {
+		// no packets received
+	} else if eh, err := ethernet.Parse(buffer[:n]); err != nil {
+	} else if eh.Type == EthernetTypeARP && c.doARP {
+		data := make([]byte, len(eh.Payload))
+		copy(data, eh.Payload[:])
+		c.handleARP(data)
+	} else if eh.Type == EthernetTypeIPv4 {
+		if iph, err := ipv4.Parse(eh.Payload[:]); err != nil {
+			log.Debugf("Error parsing ip header: %s", err.Error())
+		} else {
+			data := make([]byte, len(iph.Payload))
+			copy(data, iph.Payload[:])
+
+			switch iph.Protocol {
+			case 1 /* icmp */ :
+				c.handleICMP(eh, iph, data)
+			case 2 /* IGMP */ :
+
+			case 6 /* tcp */ :
+				c.handleTCP(eh, iph, data)
+			case 17 /* udp */ :
+				c.handleUDP(eh, iph, data)
+			default:
+				log.Debugf("Ignoring protocol: %x", iph.Protocol)
+			}
+		}
+	}
+}
+
+// VerifDrainTx pops every length-prefixed frame queued in the transmit ring.
+func (c *Canary) VerifDrainTx() [][]byte {
+	var frames [][]byte
+
+	for {
+		hdr := [2]byte{}
+
+		if n, err := c.buffer.Read(hdr[:]); err != nil || n < 2 {
+			return frames
+		}
+
+		l := int(hdr[0])<<8 + int(hdr[1])
+
+		frame := make([]byte, l)
+
+		n, err := c.buffer.Read(frame)
+		if err != nil {
+			return frames
+		}
+
+		frames = append(frames, frame[:n])
+	}
+}
+
+// VerifStartKnockDetector runs the real port-scan detector goroutine.
+func (c *Canary) VerifStartKnockDetector(ctx context.Context) {
+	go c.knockDetector(ctx)
+}
+
+// VerifStates is the number of occupied slots of the connection state table.
+func (c *Canary) VerifStates() int {
+	n := 0
+
+	for _, s := range c.stateTable {
+		if s != nil {
+			n++
+		}
+	}
+
+	return n
+}
